@@ -140,6 +140,68 @@ theorem C01_size_covers_present_fields (env : Env) (fs : List Field) (r : Int)
     0 ≤ r ∧ ∀ s z : Int, (some true, some s, some z) ∈ extents env fs → s + z ≤ r :=
   C01_size_covers_present_fields_aux env fs r h
 
+/-- The switch grouping of `Ok()` is semantics preserving: for every field whose existence
+condition is a switch candidate (`discriminant == constant`, either order), the switch-case test
+equals the one-`if`-per-field test that the model `G` uses — provided the discriminant is integer
+valued whenever it is known (which the front end's type checker guarantees for a candidate).
+Fields sharing a case label fall back to the `if` form, which is the naive test itself. -/
+theorem C01_ok_switch_eq_naive (env : Env) (cond discrim : Expr) (label : Int) (fieldOk : Bool)
+    (hc : switchCandidate cond = some (discrim, label))
+    (hint : ∀ b, eval env discrim ≠ some (.bool b)) :
+    naiveOkTest (evalBool env cond) fieldOk = switchOkTest (eval env discrim) label fieldOk := by
+  cases cond with
+  | op f args =>
+    cases f <;> try (simp [switchCandidate] at hc)
+    cases args with
+    | nil => simp [switchCandidate] at hc
+    | cons a rest =>
+      cases rest with
+      | nil => simp [switchCandidate] at hc
+      | cons b rest2 =>
+        cases rest2 with
+        | cons c r3 => simp [switchCandidate] at hc
+        | nil =>
+          simp only [switchCandidate] at hc
+          cases ha : constInt? a with
+          | none =>
+            cases hb : constInt? b with
+            | none => simp [ha, hb] at hc
+            | some l =>
+              simp only [ha, hb, Option.some.injEq, Prod.mk.injEq] at hc
+              obtain ⟨rfl, rfl⟩ := hc
+              have hb' := constInt_eval' (env := env) hb
+              simp only [evalBool, eval, evalList, applyFn, hb']
+              cases hd : eval env a with
+              | none => simp [maybeEq, naiveOkTest, switchOkTest]
+              | some v =>
+                cases v with
+                | bool q => exact absurd hd (hint q)
+                | int d =>
+                  by_cases hdl : d = l
+                  · subst hdl; simp [maybeEq, naiveOkTest, switchOkTest]
+                  · have hb1 : (d == l) = false := by simp [hdl]
+                    simp [maybeEq, naiveOkTest, switchOkTest, hdl, hb1]
+          | some l =>
+            cases hb : constInt? b with
+            | some l2 => simp [ha, hb] at hc
+            | none =>
+              simp only [ha, hb, Option.some.injEq, Prod.mk.injEq] at hc
+              obtain ⟨rfl, rfl⟩ := hc
+              have ha' := constInt_eval' (env := env) ha
+              simp only [evalBool, eval, evalList, applyFn, ha']
+              cases hd : eval env b with
+              | none => simp [maybeEq, naiveOkTest, switchOkTest]
+              | some v =>
+                cases v with
+                | bool q => exact absurd hd (hint q)
+                | int d =>
+                  by_cases hdl : d = l
+                  · subst hdl; simp [maybeEq, naiveOkTest, switchOkTest]
+                  · have hb1 : (l == d) = false := by
+                      simp only [beq_eq_false_iff_ne, ne_eq]; exact fun e => hdl e.symm
+                    simp [maybeEq, naiveOkTest, switchOkTest, hdl, hb1]
+  | _ => simp [switchCandidate] at hc
+
 /-- `$next` is the end of the previous physical field. -/
 theorem C01_next_is_prev_end (env : Env) (prevStart prevSize : Expr) (s z : Int)
     (hs : evalInt env prevStart = some s) (hz : evalInt env prevSize = some z) :
